@@ -1,7 +1,8 @@
 """C14 — nothing received from the network or the admin port can crash the relay.
 
 TLC enumerates abstract histories over the admin/TOML command space and the malformed-stream classes
-(spec/AdminOps.tla, AdminGen.tla), including rewriters / aggregations whose result is a degenerate metric name
+(spec/AdminOps.tla, AdminGen.tla), including the URL-shape classes of the grafanaNet address, the top-level
+configuration the table is built from as main() does (bad_metrics_max_age classes), rewriters / aggregations whose result is a degenerate metric name
 (empty, white space, dots, very long) behind connected plain / pickle=true / grafanaNet routes together with
 traffic those rules match; the Go driver (harness/adm) renders each history to concrete command
 text / TOML / bytes (seeded random inside each class), applies it to a real table with started routes in
@@ -16,14 +17,17 @@ from vlib.core import Machinery
 LEVEL = "exploration"
 
 DEVIATIONS = ["zero_interval", "no_regex", "zero_flush", "zero_reconn", "zero_iobuf", "zero_syncperiod",
-              "zero_concurrency", "neg_bufsize", "ch_empty"]
+              "zero_concurrency", "neg_bufsize", "ch_empty", "gnet_addr", "tiny_maxage"]
+# part of every run (the rest rotates with the seed in the quick tier)
+ALWAYS = ["ch_empty", "gnet_addr", "tiny_maxage"]
 
 
 def model_check(ctx):
     q = ctx.quick()
     ctx.tlc("Admin", "Admin_mc.cfg", workers=6, timeout=1500,
             consts=dict(MaxCmds=ctx.pick(2, 3), MaxRoutes=2, MaxAggs=1, Deviation="none"))
-    devs = DEVIATIONS if not q else [DEVIATIONS[(ctx.seed + i * 3) % len(DEVIATIONS)] for i in range(2)] + ["ch_empty"]
+    rot = [d for d in DEVIATIONS if d not in ALWAYS]
+    devs = DEVIATIONS if not q else [rot[(ctx.seed + i * 3) % len(rot)] for i in range(2)] + ALWAYS
     for d in dict.fromkeys(devs):
         r = ctx.tlc("Admin", "Admin_mc.cfg", workers=4, timeout=900, expect_ok=False, count=False,
                     consts=dict(MaxCmds=3, MaxRoutes=2, MaxAggs=1, Deviation=d))
@@ -49,7 +53,8 @@ def hkey(h):
     return json.dumps([h["cmds"], h["items"]], sort_keys=True)
 
 
-DEGENERATE = ("zero", "wrap", "neg", "missing", "empty", "emptyexp", "spacename", "dotsname", "longname")
+DEGENERATE = ("zero", "wrap", "neg", "missing", "empty", "emptyexp", "spacename", "dotsname", "longname",
+              "withquery", "withfragment", "pctencoded", "trailingslash", "notaurl", "pathnotmetrics", "tiny")
 NAMECLASSES = ("emptyexp", "spacename", "dotsname", "longname")
 
 
@@ -65,6 +70,8 @@ def stratum(h):
     if h["items"]:
         return ("items", h["items"][-1]["proto"], h["items"][-1]["cls"])
     c = h["cmds"][-1]
+    if c["op"] == "config":      # every class of the top-level configuration
+        return (c["op"], c["via"], c["opt"], c["val"], 0)
     return (c["op"], c["via"], c["opt"], c["val"] if c["val"] in DEGENERATE else "*", c["n"] if c["op"] in ("modDest", "delDest") else 0)
 
 
@@ -121,6 +128,10 @@ def build_cases(ctx):
     mix["typical_then_command"] = add(pairs, "pair", 1 if q else 12, ctx.pick(150, 5000))
     # a consistentHashing route shrunk to one destination, then every delete (incl. the one that would empty it)
     mix["hashing_route_shrunk_then_delete"] = add(gen(ctx, 1, 0, "chdel", "api"), "chdel")
+    # the table built from a top-level configuration (every bad_metrics_max_age class) the way main() builds it,
+    # then a typical table-building command and traffic
+    mix["config_then_typical"] = add(gen(ctx, 1, 0, "config", "typical"), "cfgthen", 2 if q else None,
+                                     stratum=lambda h: h["cmds"][0]["val"])
     items1 = gen(ctx, 0, 1, "typical", "none")
     if not q:
         mix["pickle_route_then_item"] = add([h for h in items1 if h["cmds"][0].get("pk")], "item1pk", 2)
@@ -245,7 +256,8 @@ def run(ctx):
         if len(acc) < len(applies) // 10 or len(online) < len(pumps) * 9 // 10:
             raise Machinery("vacuous run: %d/%d commands accepted, %d/%d histories with all sink destinations online"
                             % (len(acc), len(applies), len(online), len(pumps)))
-        need = {"addBlack", "addRewriter", "addAgg", "addRoute", "addGnet", "modDest", "modRoute", "delRoute", "delDest", "delAgg"}
+        need = {"addBlack", "addRewriter", "addAgg", "addRoute", "addGnet", "modDest", "modRoute", "delRoute", "delDest", "delAgg",
+                "config"}
         if not need.issubset(ops_acc):
             raise Machinery("commands never accepted: %s" % (need - set(ops_acc)))
         if set(protos) != {"plain", "pickle", "udp", "amqp"}:
@@ -363,7 +375,11 @@ def run(ctx):
     cov["unworkable_accepted_survived"] = len(survived)
     cov["rule"] = ("abstract histories enumerated by TLC from AdminOps.tla: every single command of the command space "
                    "(%d commands: op x via{cmd,toml,api} x one degenerate parameter x value class {missing, empty, zero, one, "
-                   "typical, huge, wrap, neg, nonnum, badregex, emptyexp, spacename, dotsname, longname}), a typical table-building command followed by every command, "
+                   "typical, huge, wrap, neg, nonnum, badregex, emptyexp, spacename, dotsname, longname}; the grafanaNet address also by URL shape "
+                   "{withquery, withfragment, pctencoded, trailingslash, notaurl, pathnotmetrics}; the top-level configuration "
+                   "(TOML -> cfg.Config -> TableConfig() -> table.New -> cfg.InitTable, as main() does, and the table's background "
+                   "goroutine answering a request) with bad_metrics_max_age in {typical, zero, tiny (<10ns), neg, nonnum}, alone and "
+                   "followed by a typical table-building command), a typical table-building command followed by every command, "
                    "typical tables followed by every malformed-stream class (plain, pickle, UDP, AMQP), a connected route (plain / "
                    "pickle=true destinations, grafanaNet) followed by every rewriter / aggregation whose result is a degenerate "
                    "metric name (empty expansion, white space, dots only, very long) and by traffic that rule matches (the driver "
